@@ -32,6 +32,35 @@ PREDEF = ('value', 'status', 'target', 'pollinterval', 'ramp', 'use_ramp', 'setp
           'communicate')
 
 
+def _bad_reading(rng, di):
+    """a python value which the datatype refuses to convert but which could be serialised (None: no such value)"""
+    t = di.get('type')
+    if t == 'string':
+        if 'maxchars' in di and di['maxchars'] < 200:
+            return 'x' * (di['maxchars'] + 1 + rng.randrange(4))
+        return 'caf\xe9' if not di.get('isUTF8') else 'nul\0inside'
+    if t in ('tuple', 'struct', 'array'):
+        try:
+            good = dtgen.to_internal(di, dtgen.valid_wire(rng, di, full=True))
+        except Exception:   # noqa
+            return None
+        if t == 'struct':
+            for k, mdi in di['members'].items():
+                b = _bad_reading(rng, mdi)
+                if b is not None:
+                    return dict(good, **{k: b})
+        elif t == 'tuple':
+            for i, mdi in enumerate(di['members']):
+                b = _bad_reading(rng, mdi)
+                if b is not None:
+                    return tuple(good[:i]) + (b,) + tuple(good[i + 1:])
+        elif good:
+            b = _bad_reading(rng, di['members'])
+            if b is not None:
+                return (b,) + tuple(good[1:])
+    return None
+
+
 class C06(Check):
     ID = 'C06'
     TRACE_FILES = ('secnode.py', 'protocol/dispatcher.py')
@@ -55,7 +84,8 @@ class C06(Check):
                    'the clause "interface class and features match the implementing class" is a pure '
                    'configuration->string mapping; it is checked in generated mode as a rider']
     PROBES = ('c06.generated-mode', 'c06.shipped-mode', 'c06.must-reject', 'c06.must-accept', 'c06.constant',
-              'c06.undescribed-probed', 'c06.describe-repeated', 'c06.emitted-values-checked', 'c06.unexported-module')
+              'c06.undescribed-probed', 'c06.describe-repeated', 'c06.emitted-values-checked', 'c06.unexported-module',
+              'c06.driver-glitch')
 
     def gen_case(self, rng, tier):
         mode = 'generated' if rng.random() < 0.7 else 'shipped'
@@ -179,6 +209,20 @@ class C06(Check):
             elif x < 0.78:
                 sim.count('c06.describe-repeated')
                 ask('describe', 'describe')
+            elif x < 0.84 and shape['mode'] == 'generated' and di.get('type') != 'command':
+                # a glitch of the hardware: the driver assigns a reading which is no value of the datatype
+                # (as a doPoll does with self.<param> = reading); the node must not hand it out afterwards
+                bad = _bad_reading(rng, di)
+                if bad is not None:
+                    mobj = secnode.modules[m]
+                    attr = mobj.accessiblename2attr.get(a)
+                    if attr is not None and d.get('constant') is None:
+                        sim.count('c06.driver-glitch')
+                        try:
+                            setattr(mobj, attr, bad)
+                        except Exception:   # noqa
+                            pass
+                        ask(f'read {m}:{a}', 'read', m=m, a=a)
             elif x < 0.93 and hidden:
                 sim.count('c06.undescribed-probed')
                 hk, hm, ha = rng.choice(hidden)
